@@ -1,6 +1,6 @@
 """C06 - a valid index is always equivalent to one rebuilt from storage (DESIGN 4, C06)."""
 
-from .. import observers, qast, refmodel, world as W
+from .. import ladder, observers, qast, refmodel, world as W
 from .base import E1Check, viol, closure_configs, wide_configs
 from .c01 import std_ops
 
@@ -61,7 +61,8 @@ class C06(E1Check):
     def configs(self):
         # the depth-bounded runs plus runs to the fixpoint within 2 stored points (histories of any length)
         extra = closure_configs(("mem",))[:1] if self.tier == "quick" else closure_configs(("mem", "csv"))
-        return super().configs() + wide_configs(("mem", "csv"), D=2 if self.tier == "quick" else 3) + extra
+        lad = ladder.configs(self.ladder_sizes(), storages=("mem", "csv"), autos=(True, False), D=2, big_depth=1 if self.tier == "quick" else None)
+        return super().configs() + wide_configs(("mem", "csv"), D=2 if self.tier == "quick" else 3) + lad + extra
 
     def budget(self):
         return 600 if self.tier == "quick" else 1200
@@ -97,6 +98,10 @@ class C06(E1Check):
     def observe(self, w, stored, history, cfg, counters):
         db = w.db
         out = []
+        if cfg.get("ladder"):
+            if not db.index.valid and cfg["auto_index"]:
+                db.count(qast.build(("noop", "time")))
+            return observers.index_equiv("C06", db, stored, self.ladder_vocab(cfg["ladder"]), counters, tag="|ladder") if db.index.valid else []
         if db.index.valid:
             counters["states_with_valid_index"] += 1
             out += observers.index_equiv("C06", db, stored, self.vocab, counters)
